@@ -49,7 +49,7 @@ var worldServices = []svcDef{
 	{"c2", "s2", 0, ""},
 	{"c3", "s1", 1, "1356:c1:s2"},
 	{"c2", "s3", 1, ""},
-	{"c4", "s1", 1, ""},
+	{"c4", "s1", 1, "9999:c6:s2"}, // blocks a service of another BitXHub (hub=1 worlds: 9999 is registered)
 }
 var worldUsers = []string{"u0", "u1", "u2", "u3"}
 
